@@ -1448,3 +1448,35 @@ def s19_close_bump(inst, rep, rid="S19"):
                       "behind trailing skipped tokens (no comparison of the mark with non_skip_len / no store raising it on that path): an empty node created "
                       "after a skipped token becomes a sibling of its parent, and the parent ends with the skipped token" % inst.label,
                       site(cl, (0, 0)), flow.describe_path(cl, path) if path else None)
+
+
+# ------------------------------------------------------------------------------------------------
+# S21: the root node is the first node: parse_rule opens it before anything can push a token node
+# ------------------------------------------------------------------------------------------------
+def s21_root_first(inst, rep, rid="S21"):
+    rep.rule(rid, "DOM: in parse_rule the call that opens the root node (Parser::open / CstData::open) dominates, and precedes, every call that "
+                  "can push a token node or another rule node - init_skip, advance, advance_with_error, the rule closure: the tree is a flat "
+                  "pre-order vector whose walk starts at the root's index, so leading skipped or lexer-error tokens pushed before the root is "
+                  "opened lie outside every node and are lost from the tree")
+    body = inst.fn("Parser::parse_rule")
+    opens = []
+    pushers = []
+    for pt, name, decl, args, t in calls(body):
+        tail = fn_tail(name)
+        if tail in ("Parser::open", "CstData::open"):
+            opens.append(pt)
+        elif tail in ("Parser::init_skip", "Parser::advance", "Parser::advance_with_error", "CstData::advance") or (decl.endswith("Fn::call") and args and args[0][0] == "param"):
+            pushers.append((pt, tail if not decl.endswith("Fn::call") else "rule closure"))
+    if not opens:
+        raise MissingAnchor("%s: parse_rule does not open a root node" % inst.label)
+    if not any(w == "Parser::init_skip" for _, w in pushers) or not any(w == "rule closure" for _, w in pushers):
+        raise MissingAnchor("%s: parse_rule calls neither init_skip nor its rule closure" % inst.label)
+
+    def before(a, b):
+        return (a[0] == b[0] and a[1] < b[1]) or (a[0] != b[0] and body.dominates(a[0], b[0]))
+    for pt, what in pushers:
+        if any(before(o, pt) for o in opens):
+            rep.ok(rid, "%s parse_rule: %s behind the open of the root node" % (inst.label, what))
+        else:
+            rep.violation(rid, "parse_rule|%s|before-root-open" % what, "%s: parse_rule calls %s on a path on which the root node has not been opened yet: the token "
+                          "nodes it pushes precede the root in the node vector and are not part of the returned tree" % (inst.label, what), site(body, pt))
